@@ -53,7 +53,8 @@ func VerifHarness_C07_safe() {
 	tid, rid := *t.TxHash(), *rival.TxHash()
 
 	firstSeen := int64(-1)
-	vouched := false  // the trusted peer announced or sent t
+	vouchedAt := int64(-1) // when the trusted peer first vouched for t (the node may count the delay from there)
+	vouched := false       // the trusted peer announced or sent t
 	conflict := false // a conflicting transaction is known
 	local := false
 	confirmedT := false
@@ -78,6 +79,9 @@ func VerifHarness_C07_safe() {
 			inv.AddInvVect(wire.NewInvVect(wire.InvTypeTx, &h))
 			_, perr = node.messageHandlers[wire.CmdInv].Handle(ctx, inv)
 			if !confirmedT {
+				if !vouched {
+					vouchedAt = verifrt.NowNanos()
+				}
 				vouched = true
 			}
 		case 2: // body of t from the trusted peer
@@ -86,6 +90,9 @@ func VerifHarness_C07_safe() {
 				firstSeen = verifrt.NowNanos()
 			}
 			if !confirmedT {
+				if !vouched {
+					vouchedAt = verifrt.NowNanos()
+				}
 				vouched = true
 			}
 		case 3: // a conflicting transaction arrives
@@ -163,7 +170,13 @@ func VerifHarness_C07_safe() {
 			}
 			if !already {
 				// elapsed is measured at the moment the checker looked (one poll period after the advance)
-				due := now-firstSeen > delayNs+200_000_000
+				// ("within a bounded time": the delay counted from the first sighting or, when the
+				// trusted peer vouched later than that, from its vouching)
+				base := firstSeen
+				if vouchedAt > base {
+					base = vouchedAt
+				}
+				due := now-base > delayNs+200_000_000
 				verifrt.Sig("safe", "missed")
 				verifrt.Assert(verifrt.Implies(due, reported), "C07.safe.reported-within-one-poll-when-warranted")
 			}
